@@ -110,24 +110,41 @@ int read_pax_header(sqfs_istream_t *fp, sqfs_u64 entsize,
 		     "C07.limits.unexpected_record");
 	VERIF_ASSERT(entsize >= 1 && entsize <= TAR_MAX_PAX_LEN,
 		     "C07.limits.pax");
-	VERIF_ASSERT(*set_by_pax == 0 && out->name == NULL &&
-		     out->link_target == NULL && out->sparse == NULL &&
-		     out->xattr == NULL, "C07.read_header.pax_starts_clean");
+	/* What the records in front of this one set stays valid (a GNU long
+	 * name followed by a PAX record with only numbers keeps the long name:
+	 * C04.hdr.ext_records_accumulate, fix in read_header): the obligation
+	 * is the coherence of flags and fields - "flag set <=> field present" -
+	 * so that decode_header never skips a field that is not there (the
+	 * NULL name of seed C07-1) and never overwrites one that is. */
+	VERIF_ASSERT(((*set_by_pax & PAX_NAME) != 0) == (out->name != NULL) &&
+		     ((*set_by_pax & PAX_SLINK_TARGET) != 0) ==
+		     (out->link_target != NULL),
+		     "C07.read_header.pax_flags_coherent");
 
 	bits = verif_nd_u32("pax.bits");
+	/* the real handlers release what they replace (pax_header.c) */
 	if (bits & PAX_NAME) {
+		free(out->name);
 		out->name = env_string();
-		if (out->name == NULL)
+		if (out->name == NULL) {
+			*set_by_pax &= ~(unsigned int)PAX_NAME;
 			return -1;
+		}
 	}
 	if (bits & PAX_SLINK_TARGET) {
+		free(out->link_target);
 		out->link_target = env_string();
-		if (out->link_target == NULL)
+		if (out->link_target == NULL) {
+			*set_by_pax &= ~(unsigned int)PAX_SLINK_TARGET;
 			return -1;
+		}
 	}
-	if (verif_nd_bool("pax.sparse"))
+	if (verif_nd_bool("pax.sparse")) {
+		free_sparse_list(out->sparse);
 		out->sparse = env_sparse();
+	}
 	if (verif_nd_bool("pax.xattr")) {
+		sqfs_xattr_list_free(out->xattr);
 		out->xattr = calloc(1, sizeof(sqfs_xattr_t));
 	}
 	out->record_size = verif_nd_u64("pax.size");
